@@ -8,5 +8,6 @@ CONSTANTS
   Offsets = {0, 1}
   Flags = {FALSE}
   Compat = {FALSE, TRUE}
+  RefLibs = FALSE
 INVARIANT Dump
 CHECK_DEADLOCK FALSE
